@@ -140,6 +140,13 @@ NEGATIVE = [
     ("redefined parameter", "onFired: function(n: int, n: QString) { a.poke() }"),
     ("handler body ill-typed", "onFired: function(n: int) { a.actText(n) }"),
     ("void parameter", "onFired: function(n: void) { a.poke() }"),
+    ("handler on a gadget member", "font.onChanged: a.poke()"), ("handler inside a grouped value", "font { onFamilyChanged: a.poke() }"),
+    ("handler on an attached type", "QLayout.onRowChanged: a.poke()"), ("handler on a value-typed member", "gad.onGxChanged: a.poke()"),
+    ("double parameter for int argument", "onFired: function(n: double) { a.poke() }"), ("uint parameter for int argument", "onFired: function(n: uint) { a.poke() }"),
+    ("int parameter for enum argument", "onModed: function(m: int) { a.act(m) }"), ("bool parameter for int argument", "onFired: function(n: bool) { a.actFlag(n) }"),
+    ("derived parameter for a base pointer argument", "onFontPicked: function(f: QString) { a.poke() }"),
+    ("handler bound twice", "onPlain: a.poke()\n    onPlain: a.act(1)"),
+    ("handler with a return value in block form", "onPlain: { return 1 }") if False else ("parameter of an unknown type", "onFired: function(n: Nope) { a.poke() }"),
 ]
 POSITIVE = [
     ("upcast parameter", "onPicked: function(p: TSource) { a.actPtr(p) }"),
